@@ -79,6 +79,16 @@ def verdict(fn):
         return 10, None, repr(e)
 
 
+def same_verdict(code, mcode):
+    """Implementation verdict vs model verdict.  The kinds of IndexError (1, 2, 4, 5, 6) are told apart by their message
+    text, which the property does not constrain: an IndexError whose text is not one we know (9) agrees with any of them."""
+    if code == mcode:
+        return True
+    if code == 9 and mcode in (1, 2, 4, 5, 6):
+        return True
+    return False
+
+
 # ---------------------------------------------------------------------------- (g) validation on every open path
 
 PATHS = ('direct', 'meta', 'open', 'list', 'given', 'other')
@@ -139,7 +149,7 @@ def check_paths(ctx, x, rdb, pre, paths, T=4, F=4):
                          'channels only for a list of files; none for other formats)', spec=want)
         if mo is not None:
             mcode = mo if isinstance(mo, int) else (mo[0] if len(mo) == 1 else 0)
-            if code != mcode and not (code in (7, 8) and mcode != 0):
+            if not same_verdict(code, mcode) and not (code in (7, 8) and mcode != 0):
                 ctx.disagree('what=preselect_validation_tie;path=%s' % path, dict(case, path=path), [code, msg[:80]], mcode,
                              'verdict (accepted / which error) differs from the model', kind='tie')
         ctx.note_case(('paths', repr(pre), path), sample=None)
@@ -245,7 +255,7 @@ def check_open(ctx, c17, t, T, F, N, dsl, csl, via, cw=1.0, centre=1284.0):
         src = [c17.wire_timing(t), T, N, q(centre), q(bw), [] if via == 'meta' else [F]]
         mo = ctx.model([[173, [1, src, enc_pre(pre or None)]]])[0]
         mcode = mo[0] if len(mo) == 1 else 0
-        if mcode != code:
+        if not same_verdict(code, mcode):
             ctx.disagree('what=open_verdict_tie;via=%s' % via, case, [code, msg[:80]], mcode,
                          'accepted / which IndexError differs from the model', kind='tie')
     if impl is not None and want_ok:
